@@ -104,6 +104,10 @@ class ItemAttributeList(List[T]):
         return result
 
     def extend(self, items: Iterable[T]) -> None:
+        if items is self:
+            # do not iterate over the list while it is growing
+            items = list(items)
+
         for item in items:
             self.append(item)
 
